@@ -247,6 +247,21 @@ def check(case, rec=None):
                     if len(ix2.gas) != ng or not np.array_equal(np.asarray(ix2.gas), hist):
                         fails.append(fail("histogram", "fight_over_peaks after assigntorings: per-grain counts differ "
                                           "from the histogram of the labels", entry="fight_over_peaks/rings"))
+                    # which peaks one orientation indexes (getind, with the scratch arrays scorethem hands in, here with
+                    # left-over content): all peaks within the tolerance, on a ring or not
+                    if not fails:
+                        g0 = case["seed"] % ng
+                        ok, msk = guard(ix2.getind, ubis[g0].copy(), None, np.zeros(n), np.full(n, 5, np.int32))
+                        if not ok:
+                            fails.append(exc_failure("indexer.getind", msk))
+                        else:
+                            lim_ = tol * tol
+                            sure_ = np.abs(E[g0] - lim_) > 1e-9 * lim_
+                            if np.shape(msk) != (n,) or ((np.asarray(msk, bool) != (E[g0] < lim_)) & sure_).any():
+                                fails.append(fail("label", "indexer.getind (scratch arrays with left-over content, %d peaks "
+                                                  "on no ring): %d peaks returned, %d lie within the tolerance" %
+                                                  (int((np.asarray(ix2.ra) < 0).sum()), int(np.sum(msk)),
+                                                   int((E[g0] < lim_).sum())), entry="getind"))
                     # the same through saveindexing on an indexer that read a g-vector file (the competition runs
                     # inside it, then one report per grain is written): the object afterwards holds the orientations
                     # it was given and their assignment
